@@ -272,13 +272,13 @@ impl Driver for RingbufDriver {
             for k in ["fixednew", "growingnew"] {
                 v.push(format!("buf={},cap=0,payload={}", k, payload));
             }
-            v.push(format!("buf=user,cap=100,payload={}", payload));
-            v.push(format!("buf=user,cap=384,payload={}", payload));
+            v.push(format!("buf=user,cap=100,payload={},nobfs=1", payload));
+            v.push(format!("buf=user,cap=384,payload={},nobfs=1", payload));
             v.push(format!("buf=arraywc,cap=2,payload={}", payload));
             v.push(format!("buf=arraywc,cap=3,payload={}", payload));
         }
         if !cfg!(miri) {
-            v.push("buf=huge,cap=65536,payload=val".to_string());
+            v.push("buf=huge,cap=65536,payload=val,nobfs=1".to_string());
         }
         v
     }
